@@ -87,8 +87,11 @@ def gen_cases(chk, mags, fixbits, scale):
             for op in INT2:
                 if int_op_ok(op, a, b):
                     add(op, (a, b), tag="core-pair")
+    # 1b. the same calls with operands stored with spare most significant words (bignum length > significant words)
+    for c in [c for c in cases if c.tag == "core-pair"][::5]:
+        cases.append(Case("pad:" + c.op, c.a, c.k, "", "spare-words"))
     # 2. seeded sample of pairs over the whole lattice (the thorough tier's lattice has every k <= 400)
-    npairs = int((300000 if T else 6000) * scale)
+    npairs = int((300000 if T else 4000) * scale)
     for i in range(npairs):
         a, b = rng.choice(L), rng.choice(L)
         for op in rng.sample(INT2, 2 if T else 3):
@@ -116,7 +119,7 @@ def gen_cases(chk, mags, fixbits, scale):
         r = rng.choice([0, 1, abs(b) - 1, rng.randrange(abs(b))])
         add(rng.choice(DIVOPS[:9]), (q * b + r, b), tag="div-pattern")
     # 4. seeded random integers
-    for i in range(int((120000 if T else 6000) * scale)):
+    for i in range(int((120000 if T else 4000) * scale)):
         mb = 4000 if (T and i % 40 == 0) else (1500 if i % 100 == 0 else 400)
         a, b = rnd_int(rng, mb), rnd_int(rng, rng.choice([mb, mb, 64, 130]))
         op = rng.choice(INT2)
@@ -166,7 +169,7 @@ def gen_cases(chk, mags, fixbits, scale):
         if r < 0.5:
             return Fraction(rnd_int(rng, 300))
         return rnd_rat()
-    for i in range(int((120000 if T else 6000) * scale)):
+    for i in range(int((120000 if T else 4000) * scale)):
         x, y = rnd_rat(), rnd_any()
         if rng.random() < 0.5:
             x, y = y, x
@@ -178,7 +181,7 @@ def gen_cases(chk, mags, fixbits, scale):
             if op == "/" and y == 0:
                 continue
         add(op, (x, y), tag="rational")
-    for i in range(int((40000 if T else 3000) * scale)):
+    for i in range(int((40000 if T else 2000) * scale)):
         x = rnd_rat()
         op = rng.choice(RAT1)
         if op == "inv" and x == 0:
@@ -209,7 +212,7 @@ def gen_cases(chk, mags, fixbits, scale):
                 for (u, v) in ((q, y), (y, q)):
                     if not (op == "/" and v == 0):
                         add(op, (u, v), tag="limit-ratio")
-    for i in range(int((20000 if T else 1500) * scale)):
+    for i in range(int((20000 if T else 800) * scale)):
         # n1/d1 ? n2/d2 with n1*d2 and n2*d1 both fixnums, of opposite sign and large
         d1, d2 = rng.choice([2, 3, 5, 7, 9, 11]), rng.choice([1, 1, 2, 3, 5, 7])
         n1 = rng.randrange(fx // (2 * d2), fx // d2) * rng.choice([1, -1])
@@ -234,7 +237,7 @@ def gen_cases(chk, mags, fixbits, scale):
             add("eqv*/", (x, y, z, w), tag="eqv")
     # 8b. an operation leaves its operands unchanged (operand objects are printed again after the call)
     keepops = ["+", "-", "*", "/", "quotient", "remainder", "modulo", "gcd", "lcm", "floor-quotient"]
-    for i in range(int((40000 if T else 2500) * scale)):
+    for i in range(int((40000 if T else 1500) * scale)):
         x, y = (rng.choice(L), rng.choice(L)) if rng.random() < 0.6 else (rnd_any(), rnd_any())
         ops_ok = keepops if (x.denominator == 1 and y.denominator == 1) else keepops[:4]
         op = rng.choice(ops_ok)
@@ -257,7 +260,7 @@ def gen_cases(chk, mags, fixbits, scale):
         for frac in [0, 1, (1 << 52) - 1, 1 << 51, rng.getrandbits(52), rng.getrandbits(52) & ~((1 << 30) - 1)]:
             for sgn in (0, 1):
                 dbls.append((sgn << 63) | (e << 52) | frac)
-    for i in range(int((30000 if T else 1500) * scale)):
+    for i in range(int((30000 if T else 1000) * scale)):
         e = rng.choice([rng.randint(0, 2046), rng.randint(1000, 1100), rng.randint(0, 60)])
         dbls.append((rng.getrandbits(1) << 63) | (e << 52) | (rng.getrandbits(52) if rng.random() < 0.7 else rng.getrandbits(52) & ~((1 << rng.randint(1, 52)) - 1)))
     for u in dbls:
@@ -294,6 +297,8 @@ def gen_cases(chk, mags, fixbits, scale):
             s = sg + body
             if radix == 10 and any(ch in s for ch in "eE"):
                 continue
+            if s.lower() in ("+i", "-i"):
+                continue                      # the imaginary unit in Scheme's number syntax: not a digit string in any radix
             big = any(DIGITS.index(ch.lower()) >= 16 for ch in s if ch.lower() in DIGITS)
             if big:
                 key = "string->number:digit>f"
